@@ -464,8 +464,8 @@ def run_case(case, seed, keep=None):
         for (u, p), (_, x, rate, _) in zip(paths, utts):
             r = computers.call(lambda: util.read_signal(p, dtype=np.float64, key=u))
             want = x.astype(np.float64)
-            if tool == "kaldi" or container in ("wav", "sph"):
-                want = want.T if want.ndim == 2 else want   # time-first readers
+            if want.ndim == 2 and (tool == "kaldi" or container in ("wav", "sph")):
+                want = want[0] if want.shape[0] == 1 else want.T   # time-first readers
             if r[0] != "ok" or r[1].shape != want.shape or not np.array_equal(r[1], want):
                 # C11/C12's business, not C09's: the case is not judged
                 return dict(viol=[], stored={}, skipped=len(utts) + dropped, nontrivial=False,
@@ -475,10 +475,8 @@ def run_case(case, seed, keep=None):
         if comp_name != "none":
             cargs.append(config_arg(computer_json(comp_name), syntax, d, "computer"))
         opts = []
-        if pre_spec or case.get("dither") is not None:
-            pj = pre_json(pre_spec)
-            if case.get("dither") is not None:
-                pj = list(case["dither"]) if isinstance(case["dither"], list) else pj
+        pj = list(case["dither"]) if case.get("dither") is not None else pre_json(pre_spec)
+        if pj:
             opts += ["--preprocess", config_arg(pj, syntax, d, "pre")]
         if post_spec:
             opts += ["--postprocess", config_arg(post_json(post_spec), syntax, d, "post")]
@@ -505,7 +503,7 @@ def run_case(case, seed, keep=None):
             if setname == "rate":
                 what = "rate_mismatch_raises"
             viol.append(core.violation(
-                dict(tags0, what=what, exc=r[1]),
+                dict(tags0 if what == "exception" else dict(tool=tool), what=what, exc=r[1]),
                 "%s tool raised %s: %s (set %s, %d utterances expected in the output)" % (
                     tool, r[1], r[2], setname, len(expect)), case_out))
             return dict(viol=viol, stored={}, skipped=dropped, nontrivial=True, obs="raised:" + r[1])
@@ -539,16 +537,16 @@ def run_case(case, seed, keep=None):
             if keep is not None:
                 keep["bytes"] = b"".join(open(os.path.join(out_dir, nm), "rb").read() for nm in names)
         if len(ids) != len(set(ids)):
-            viol.append(core.violation(dict(tags0, what="extra_id", dup=True),
+            viol.append(core.violation(dict(tool=tool, what="extra_id", dup=True),
                                        "ids written more than once: %r" % ids, case_out))
         for u in sorted(set(expect) - set(ids)):
             viol.append(core.violation(
-                dict(tags0, what="missing_id"),
+                dict(tool=tool, what="missing_id"),
                 "utterance %s is not excluded by any option but is absent from the output (ids %r, rc %r)"
                 % (u, ids, rc), case_out))
         for u in sorted(set(ids) - set(expect)):
             viol.append(core.violation(
-                dict(tags0, what="extra_id", dup=False),
+                dict(tool=tool, what="extra_id", dup=False),
                 "output holds %s, which is %s" % (
                     u, "excluded (rate / duration / channel)" if u in excluded else "not an input id"),
                 case_out))
@@ -556,12 +554,15 @@ def run_case(case, seed, keep=None):
             for u in sorted(set(expect) & set(stored)):
                 got, want = stored[u], expect[u]
                 empty = want.shape[0] == 0
+                if tool == "kaldi" and empty and got.shape[0] == 0:
+                    obs.append("ok_empty")    # a Kaldi matrix without rows has no columns either
+                    continue
                 if close(got, want):
                     obs.append("ok_empty" if empty else "ok")
                     continue
                 if post_spec and close(got, before[u]) and not close(before[u], want):
                     viol.append(core.violation(
-                        dict(tags0, what="postprocess_ignored"),
+                        dict(tool=tool, what="postprocess_ignored"),
                         "%s: stored matrix %r equals the features BEFORE post-processing; after %s it "
                         "should have shape %r" % (u, got.shape, post_spec, want.shape), case_out))
                     continue
@@ -678,7 +679,9 @@ def _seed_case(pt, seed):
                 "--seed 7 with the configuration as a %s file wrote different bytes than inline JSON" % s,
                 case))
     changed = outs["a"][0] != outs["other"][0]
-    return core.result(viol, evals=len(runs), nontrivial=changed, obs=("seed_matters", changed),
+    return core.result(viol, evals=len(runs), nontrivial=changed,
+                       obs=(tool, comp_name, "seed_matters", changed,
+                            sorted((k, list(v.shape)) for k, v in outs["a"][1].items())),
                        sample=dict(tool=tool, computer=comp_name, pre=DITHERS[dname], post=POSTS[post],
                                    container=container))
 
